@@ -317,6 +317,45 @@ def routes_disagree(x) -> str | None:
             continue
         if r != base:
             return f"{n} gives {r!r} but tagify().get_html_string() gives {base!r}"
+    return _routes_inside_open_with(x, rs)
+
+
+_WITH_PROBE = [0]
+
+
+def _routes_inside_open_with(x, outside) -> str | None:
+    """The same routes evaluated while a tag of the tree (the root, its first tag children) is ENTERED as a
+    `with` block in which nothing is displayed: a tag that is being filled is the same tree as before and must
+    render the same by every route.  Every third call only (cost); display hook and the tag's saved hook are
+    put back."""
+    import sys
+    from htmltools import Tag
+    _WITH_PROBE[0] += 1
+    if _WITH_PROBE[0] % 3:
+        return None
+    kids = x.children if isinstance(x, Tag) else x
+    try:
+        cands = ([x] if isinstance(x, Tag) else []) + [c for c in list(kids) if isinstance(c, Tag)][:2]
+    except Exception:
+        return None
+    for t in cands:
+        old, prev = sys.displayhook, getattr(t, "prev_displayhook", None)
+        sys.displayhook = lambda v: None
+        try:
+            with t:
+                inside = [(n, safe_call(f)) for n, f in render_routes(x)]
+        except Exception:                 # this object cannot be entered (a test double of a tag): not judged here
+            continue
+        finally:
+            sys.displayhook = old
+            try:
+                t.prev_displayhook = prev
+            except Exception:
+                pass
+        for (n, a), (_, b) in zip(outside, inside):
+            if a != b:
+                return (f"{n} gives {b!r} while a tag of the tree ({t.name}) is entered as a with-block in which nothing "
+                        f"is displayed, but {a!r} outside it")
     return None
 
 
